@@ -763,7 +763,7 @@ func (w *Writer) Close() error {
 		summarySectionStart = 0
 	}
 	var summaryOffsetStart uint64
-	if !w.opts.SkipSummaryOffsets {
+	if !w.opts.SkipSummaryOffsets && len(summaryOffsets) > 0 {
 		summaryOffsetStart = w.w.Size()
 		for _, summaryOffset := range summaryOffsets {
 			err := w.WriteSummaryOffset(summaryOffset)
